@@ -404,10 +404,11 @@ func Explore(c *core.Ctx) int64 {
 		names           []string
 		ops, per, n, dp int
 		faults          int
+		marked          bool // 4 brokers: simulation only, keeping the behaviours with different coalesced payloads on two links of one broker
 	}
-	confs := []conf{{[]string{"b1", "b2"}, 3, 1, 25, 40, 0}, {[]string{"b1", "b2", "b3"}, 3, 1, 25, 70, 0}, {[]string{"b1", "b2"}, 4, 1, 30, 60, 1}}
+	confs := []conf{{[]string{"b1", "b2"}, 3, 1, 25, 40, 0, false}, {[]string{"b1", "b2", "b3"}, 3, 1, 25, 70, 0, false}, {[]string{"b1", "b2"}, 4, 1, 30, 60, 1, false}, {[]string{"b1", "b2", "b3", "b4"}, 4, 3, 30, 110, 0, true}}
 	if !c.Quick() {
-		confs = []conf{{[]string{"b1", "b2"}, 4, 2, 300, 60, 0}, {[]string{"b1", "b2", "b3"}, 4, 1, 400, 90, 0}, {[]string{"b1", "b2"}, 4, 1, 300, 70, 2}, {[]string{"b1", "b2", "b3"}, 3, 1, 200, 100, 1}}
+		confs = []conf{{[]string{"b1", "b2"}, 4, 2, 300, 60, 0, false}, {[]string{"b1", "b2", "b3"}, 4, 1, 400, 90, 0, false}, {[]string{"b1", "b2"}, 4, 1, 300, 70, 2, false}, {[]string{"b1", "b2", "b3"}, 3, 1, 200, 100, 1, false}, {[]string{"b1", "b2", "b3", "b4"}, 5, 4, 400, 140, 0, true}}
 	}
 	var nontrivial int64
 	for ci, k := range confs {
@@ -436,11 +437,17 @@ func Explore(c *core.Ctx) int64 {
 		if k.faults > 0 && !c.Quick() && len(k.names) == 2 {
 			mcOps = 3
 		}
-		c.ModelCheck("MC_Gossip", mc("none", mcOps, k.per, true, false), tlc.Opts{})
+		if !k.marked {
+			c.ModelCheck("MC_Gossip", mc("none", mcOps, k.per, true, false), tlc.Opts{})
+		}
+		gen := "sim"
+		if k.marked {
+			gen = "simmark"
+		}
 		var lines []string
 		// schedules with faults are generated from the model of what the code does (the garbage-collection step is enabled
 		// for the peers the real member list holds)
-		r, err := tlc.Run(tlc.Opts{SpecDir: core.SpecDir(), Module: "MC_Gossip", Cfg: mc("sim", k.ops, k.per, false, k.faults > 0), Workers: 1, SimNum: k.n, SimDepth: k.dp, Seed: c.Seed + int64(ci),
+		r, err := tlc.Run(tlc.Opts{SpecDir: core.SpecDir(), Module: "MC_Gossip", Cfg: mc(gen, k.ops, k.per, false, k.faults > 0), Workers: 1, Timeout: 40 * time.Minute, SimNum: k.n, SimDepth: k.dp, Seed: c.Seed + int64(ci),
 			OnTag: func(tag, js string) {
 				if tag == "BEH" {
 					lines = append(lines, strings.TrimSuffix(strings.TrimSpace(js), "]"))
